@@ -80,8 +80,8 @@ theorem guard_lifetime (cap tmo : Nat) (ops : List Op) :
     have g' := good_step s g (.call now)
     have h1 := g'.count_eq
     simp only [Svc.step] at h1
-    refine ⟨?_, by simp [Svc.call]⟩
-    have h2 : (s.call now).count = s.count + 1 := by simp [Svc.call, ucInc_eq]
+    refine ⟨?_, by simp [Svc.call, Svc.callT]⟩
+    have h2 : (s.call now).count = s.count + 1 := by simp [Svc.call, Svc.callT, ucInc_eq]
     have := g.count_eq
     omega
   · intro k now hs h
